@@ -28,6 +28,11 @@ schema is audited with the declarative invariant:
   name, looking that key up through the owner returns the member, members have the
   refdict's class, and every object that names an owner (`source` / `subject`) is listed
   in that owner's collection (no orphans);
+* endpoint properties: every concrete link has `@source` / `@target` and they point where
+  the link points (own and inherited links);
+* sweep: after the last statement of a script every user type is `DROP TYPE`d in random
+  order until nothing more can be dropped; each accepted drop is audited like any other
+  statement (a stale but still resolvable reference becomes a dangling one here);
 * full audit (base schema, end of every script): the same over ALL objects of the
   schema (std library included, ~6000 objects), both directions of all three name
   indexes and of the reverse-reference index;
@@ -75,6 +80,18 @@ BASES = [
     global cur -> str;
     alias Docs := Doc { body };
     ''',
+    # inheritance MERGE: the same pointer comes from parents with different targets / types
+    '''
+    type T2; type T3 extending T2; type T4 extending T3;
+    scalar type S1 extending str; scalar type S2 extending S1;
+    type A { link l -> T2; property p -> S1; }
+    type A2 { link l -> T3 { property note -> str; }; property p -> S2; }
+    abstract type PA { link m -> T2; }
+    abstract type PA2 { link m -> T3; }
+    type B extending A;
+    type C extending A { overloaded link l -> T3; overloaded property p -> S2; }
+    type D extending PA, PA2 { overloaded link m -> T4; }
+    ''',
 ]
 
 
@@ -82,6 +99,33 @@ BASES = [
 # named after (the owner's name-keyed collection must follow), then DROP / CREATE of the
 # old and the new names
 CORPUS = [
+    # FINDING on the unchanged tree (key drop-owned-leaves-target-prop-stale): DROP OWNED resets the
+    # link's target through AlterOwned -> inherit_fields but leaves the implicit `@target` property
+    # on the old target; endpoint properties never block a drop, so DROP TYPE of the old target is
+    # accepted and leaves a dangling reference
+    (2, ['alter type C alter link l drop owned;',
+         'drop type T4;',
+         'drop type D;',
+         'drop type T4;',
+         'drop type A2;',
+         'drop type T3;'], 'drop-owned-leaves-target-prop-stale'),
+    # re-basing: the inherited link changes its target by MERGE, then the old parent and the old
+    # target type are dropped
+    (2, ['alter type B { drop extending A; extending A2 last; };',
+         'alter type C alter property p drop owned;',
+         'drop type C;',
+         'drop type A;',
+         'drop type D;',
+         'drop type PA;',
+         'drop type T2;']),
+    (2, ['alter type B extending A2 last;',
+         'alter type B drop extending A;',
+         'drop type C;',
+         'drop type A;',
+         'alter type D drop extending PA;',
+         'drop type PA;',
+         'alter type D alter link m drop owned;',
+         'drop type T2;']),
     (0, ['alter type Post { alter property title rename to headline; };',
          'alter type Post { create property title -> str; };',
          'alter type Post { drop property headline; };',
@@ -124,6 +168,7 @@ class Sym:
     it is updated from the outcome of the real engine, never trusted)"""
 
     def __init__(self, base: int):
+        self.base = base
         if base == 0:
             self.types = {
                 'Named': {'abstract': True, 'bases': [], 'props': {'name': 'str'}, 'links': {}},
@@ -136,6 +181,20 @@ class Sym:
             self.aliases, self.globals_ = [], []
             self.aconstraints = ['posval']
             self.linkprops = {('User', 'friends'): ['since'], ('Post', 'author'): ['weight']}
+        elif base == 2:
+            mk = lambda bases, props, links, abstract=False: {
+                'abstract': abstract, 'bases': bases, 'props': props, 'links': links}
+            self.types = {
+                'T2': mk([], {}, {}), 'T3': mk(['T2'], {}, {}), 'T4': mk(['T3'], {}, {}),
+                'A': mk([], {'p': 'S1'}, {'l': 'T2'}), 'A2': mk([], {'p': 'S2'}, {'l': 'T3'}),
+                'PA': mk([], {}, {'m': 'T2'}, True), 'PA2': mk([], {}, {'m': 'T3'}, True),
+                'B': mk(['A'], {}, {}), 'C': mk(['A'], {'p': 'S2'}, {'l': 'T3'}),
+                'D': mk(['PA', 'PA2'], {}, {'m': 'T4'}),
+            }
+            self.scalars, self.funcs, self.annos = ['S1', 'S2'], [], []
+            self.aliases, self.globals_ = [], []
+            self.aconstraints = []
+            self.linkprops = {('A2', 'l'): ['note']}
         else:
             self.types = {
                 'Base': {'abstract': True, 'bases': [], 'props': {'tag': 'str'}, 'links': {}},
@@ -159,8 +218,89 @@ class Sym:
         return f'{prefix}{self.counter}'
 
 
-def gen_stmt(sym: Sym, rng):
+def gen_merge_stmt(sym: Sym, rng):
+    """statements around inheritance MERGE: re-basing types whose parents give the same
+    pointer different targets / types, overloading and DROP OWNED, then dropping the old
+    parent and the old target"""
+    T = sorted(sym.types)
+    if not T:
+        return gen_stmt(sym, rng, merge=False)
+    t = rng.choice(T)
+    tt = sym.types[t]
+    k = rng.random()
+    others = [x for x in T if x != t]
+    if k < 0.22 and others:
+        # re-base in one statement
+        new = rng.choice(others)
+        if tt['bases'] and rng.random() < 0.8:
+            old = rng.choice(tt['bases'])
+
+            def e(s):
+                s.types[t]['bases'] = [b for b in s.types[t]['bases'] if b != old] + [new]
+            return 're-base', f'alter type {t} {{ drop extending {old}; extending {new} last; }};', e
+        return 'add base', f'alter type {t} extending {new} last;', lambda s: s.types[t]['bases'].append(new)
+    if k < 0.34 and tt['bases']:
+        old = rng.choice(tt['bases'])
+        return 'drop base', f'alter type {t} drop extending {old};', lambda s: s.types[t]['bases'].remove(old)
+    if k < 0.52:
+        # DROP OWNED / SET OWNED of a pointer (own or inherited name)
+        names = set(tt['props']) | set(tt['links'])
+        for b in tt['bases']:
+            if b in sym.types:
+                names |= set(sym.types[b]['props']) | set(sym.types[b]['links'])
+        if names:
+            n = rng.choice(sorted(names))
+            is_link = n in tt['links'] or any(n in sym.types[b]['links'] for b in tt['bases'] if b in sym.types)
+            kind = 'link' if is_link else 'property'
+            if rng.random() < 0.7:
+                def e(s):
+                    s.types[t]['props'].pop(n, None)
+                    s.types[t]['links'].pop(n, None)
+                return 'drop owned', f'alter type {t} alter {kind} {n} drop owned;', e
+            return 'set owned', f'alter type {t} alter {kind} {n} set owned;', lambda s: None
+    if k < 0.66:
+        # overload an inherited pointer with a narrower target / type
+        cands = []
+        for b in tt['bases']:
+            if b in sym.types:
+                cands += [('link', n, g) for n, g in sym.types[b]['links'].items()]
+                cands += [('property', n, g) for n, g in sym.types[b]['props'].items()]
+        if cands:
+            kind, n, g = rng.choice(cands)
+            if kind == 'link':
+                subs = [x for x in T if x == g or g in sym.types[x]['bases']
+                        or any(g in sym.types.get(bb, {'bases': []})['bases'] for bb in sym.types[x]['bases'])]
+                tgt = rng.choice(subs or [g])
+                return ('overload link',
+                        f'alter type {t} {{ alter link {n} {{ set owned; set type {tgt} using (.{n}[is {tgt}]); }}; }};',
+                        lambda s: s.types[t]['links'].__setitem__(n, tgt))
+            ty = 'S2' if g in ('S1', 'S2') and 'S2' in sym.scalars else g
+            return ('overload property',
+                    f'alter type {t} {{ alter property {n} {{ set owned; set type {ty}; }}; }};',
+                    lambda s: s.types[t]['props'].__setitem__(n, ty))
+    if k < 0.78:
+        def e(s):
+            s.types.pop(t)
+            for x in s.types.values():
+                x['bases'] = [b for b in x['bases'] if b != t]
+        return 'drop type', f'drop type {t};', e
+    if k < 0.86 and others:
+        n = sym.fresh('T')
+        b = rng.sample(others, min(len(others), rng.choice([1, 2])))
+        return ('create type', f"create type {n} extending {', '.join(b)};",
+                lambda s: s.types.__setitem__(n, {'abstract': False, 'bases': b, 'props': {}, 'links': {}}))
+    if k < 0.93 and tt['links']:
+        n = rng.choice(sorted(tt['links']))
+        tgt = rng.choice(T)
+        return ('set link type', f'alter type {t} alter link {n} set type {tgt} using (.{n}[is {tgt}]);',
+                lambda s: s.types[t]['links'].__setitem__(n, tgt))
+    return gen_stmt(sym, rng, merge=False)
+
+
+def gen_stmt(sym: Sym, rng, merge=True):
     """returns (kind, ddl text, effect) — effect(sym) is applied when the engine accepts"""
+    if merge and sym.base == 2 and rng.random() < 0.65:
+        return gen_merge_stmt(sym, rng)
     T = sorted(sym.types)
     pick_t = lambda: rng.choice(T) if T else 'Nope'
     if sym.followups and rng.random() < 0.75:
@@ -452,6 +592,8 @@ class Auditor:
         self._fields = {}
         self._refdicts = {}
         self._backrefs = {}
+        from edb.schema import links as s_links, properties as s_props
+        self.s_links, self.s_props = s_links, s_props
 
     def ref_fields(self, clsname):
         r = self._fields.get(clsname)
@@ -563,6 +705,39 @@ class Auditor:
             r = self._backrefs[cls] = sorted((a, fs[a].index) for a in attrs if a in fs)
         return r
 
+    def check_endpoints(self, s, i, bad):
+        """a concrete link carries the implicit `@source` / `@target` properties and they
+        point where the link points (own and inherited links alike)"""
+        o = s.get_by_id(i, None)
+        if o is None:
+            return
+        if isinstance(o, self.s_props.Property):
+            raw = s._id_to_data[i][type(o).get_schema_field('source').index]
+            owner = s.get_by_id(raw[1], None) if raw is not None else None
+            if isinstance(owner, self.s_links.Link):
+                self.check_endpoints(s, owner.id, bad)
+            return
+        if not isinstance(o, self.s_links.Link):
+            return
+        try:
+            src, tgt = o.get_source(s), o.get_target(s)
+            if src is None:
+                return                      # abstract link
+            ptrs = o.get_pointers(s)
+            for pname, want in (('source', src), ('target', tgt)):
+                ep = ptrs.get(s, self.sn.UnqualName(pname), None)
+                if ep is None:
+                    bad.append(f'endpoint: {self.describe(s, i)} has no @{pname} property')
+                    continue
+                raw = s._id_to_data[ep.id][type(ep).get_schema_field('target').index]
+                got = None if raw is None else raw[1]
+                if want is None or got != want.id:
+                    bad.append(f'endpoint: {self.describe(s, i)} points at {self.describe(s, want.id) if want else None} '
+                               f'but its @{pname} property points at '
+                               f'{self.describe(s, got) if got is not None else None}')
+        except Exception as e:              # noqa: BLE001
+            bad.append(f'endpoint: inspecting {self.describe(s, i)} raised {type(e).__name__}: {e}')
+
     def check_owner_side(self, s, i, bad):
         """the refdict collections held by object i: keys are the keys the members'
         CURRENT names give, lookups through the owner find the members, members are of
@@ -662,6 +837,8 @@ class Auditor:
             self.check_name_fwd(s, i, bad)
             self.check_owner_side(s, i, bad)
             self.check_member_side(s, i, bad)
+            if s._id_to_type[i] == 'Link':
+                self.check_endpoints(s, i, bad)
             if len(bad) > 25:
                 break
         so, sn = self.so, self.sn
@@ -709,6 +886,7 @@ class Auditor:
                 self.check_name_fwd(s2, i, bad)
                 self.check_owner_side(s2, i, bad)
                 self.check_member_side(s2, i, bad)
+                self.check_endpoints(s2, i, bad)
         for r in removed:
             if s2.has_object(r) or s2.get_by_id(r, None) is not None:
                 bad.append(f'dropped: {self.describe(s, r)} still has a type entry')
@@ -1256,7 +1434,7 @@ def run_level2(ctx: core.Ctx):
     ctx.log(f'level 2: {len(bases)} base schemas ({len(bases[0][0]._id_to_data)} objects each) pass the full audit')
 
     rng = ctx.rng
-    n_scripts = ctx.budget(24, 150)
+    n_scripts = ctx.budget(21, 150)
     n_stmts = ctx.budget(16, 20)
     st = {'statements': 0, 'accepted': 0, 'rejected': 0, 'kinds': {}, 'rejected_kinds': {}, 'errors': {},
           'objects_touched': 0, 'objects_removed': 0, 'full_audits': len(bases), 'versions': 0, 'scripts': 0,
@@ -1273,19 +1451,69 @@ def run_level2(ctx: core.Ctx):
                 scripts.append((d['base'], d['script']))
     if not ctx.replay:
         scripts = list(CORPUS) + [(k % len(bases), None) for k in range(n_scripts)]
+    def user_types(sv):
+        from edb.schema import objtypes
+        out = []
+        for o in sv.get_objects(type=objtypes.ObjectType, exclude_stdlib=True):
+            try:
+                if o.is_view(sv) or o.is_compound_type(sv) or o.get_from_alias(sv):
+                    continue
+            except Exception:           # noqa: BLE001
+                pass
+            out.append(str(o.get_name(sv)))
+        return sorted(out)
+
+    def fail(prefix, key, tail, what, detail, finding, done):
+        """route a verdict to its key: the stable finding key for the corpus witness, a
+        finding-prefixed key when the same defect shows in a generated script"""
+        if finding is not None:
+            return ctx.fail(finding, what, detail)
+        if 'endpoint:' in what or '__|target@' in what or '__|source@' in what:
+            # the same defect as the corpus witness: the verdict is about the endpoint
+            # properties of a link that an earlier statement of the script DROP OWNED-ed
+            import re
+            for d in done:
+                m = re.match(r'alter type \S+ alter link (\w+) drop owned', d.lower())
+                if m and (f'|{m.group(1)}@' in what.lower() or f'||{m.group(1)}&' in what.lower()):
+                    return ctx.fail(f'drop-owned-leaves-target-prop-stale:{key}', what, detail)
+        return ctx.fail(f'{prefix}:{key}:{tail}' if tail else f'{prefix}:{key}', what, detail)
+
     for sc in range(len(scripts)):
-        base, fixed = scripts[sc]
+        base, fixed = scripts[sc][0], scripts[sc][1]
+        finding = scripts[sc][2] if len(scripts[sc]) > 2 else None
+        do_sweep = not ctx.replay
         sch, inv0, _deep0, fp0 = bases[base]
         inv = {t: set(v) for t, v in inv0.items()}
         sym = Sym(base)
         versions = [(sch, fp0, ())]
         done = []
         key = None
-        for k in range(len(fixed) if fixed is not None else n_stmts):
-            if fixed is not None:
-                kind, ddl, eff = 'fixed script', fixed[k], (lambda s: None)
+        k = -1
+        n_main = len(fixed) if fixed is not None else n_stmts
+        sweep_list, sweep_progress, in_sweep = [], True, False
+        while True:
+            k += 1
+            if k < n_main:
+                if fixed is not None:
+                    kind, ddl, eff = 'fixed script', fixed[k], (lambda s: None)
+                else:
+                    kind, ddl, eff = gen_stmt(sym, rng)
             else:
-                kind, ddl, eff = gen_stmt(sym, rng)
+                # sweep: drop everything that is no longer referenced (every user type, random
+                # order, until nothing more can be dropped) — this is what turns a stale but
+                # still resolvable reference into a dangling one
+                if not do_sweep:
+                    break
+                in_sweep = True
+                if not sweep_list:
+                    if not sweep_progress:
+                        break
+                    sweep_list = user_types(sch)
+                    rng.shuffle(sweep_list)
+                    sweep_progress = False
+                    if not sweep_list:
+                        break
+                kind, ddl, eff = 'sweep: drop type', f'drop type {sweep_list.pop()};', (lambda s: None)
             done.append(ddl)
             key = hashlib.sha1('\n'.join(done).encode()).hexdigest()[:12]
             detail = {'base': base, 'script': list(done), 'at': k}
@@ -1338,6 +1566,8 @@ def run_level2(ctx: core.Ctx):
             if isinstance(s2, s_schema.ChainedSchema):
                 s2 = s2.get_top_schema()
             st['accepted'] += 1
+            if in_sweep:
+                sweep_progress = True
             # the server stores the REPLAYED schema: it must be the schema the first pass computed
             for (p1, p2) in passes:
                 if isinstance(p1, s_schema.ChainedSchema):
@@ -1352,8 +1582,8 @@ def run_level2(ctx: core.Ctx):
                              f'pass computed: {"; ".join(diff[:3])}', detail)
                     b1, _ = aud.full(p1)
                     for b in b1[:3]:
-                        ctx.fail(f'l2-oracle-firstpass:{key}:{b[:50]}', f'level 2: first-pass schema after {ddl!r}: {b}',
-                                 detail)
+                        fail('l2-oracle-firstpass', key, b[:50], f'level 2: first-pass schema after {ddl!r}: {b}',
+                             detail, finding, done)
             try:
                 eff(sym)
             except Exception:           # noqa: BLE001  (the generator's picture is only an aim)
@@ -1362,14 +1592,14 @@ def run_level2(ctx: core.Ctx):
             st['objects_touched'] += len(chg)
             st['objects_removed'] += len(rmd)
             for b in bad:
-                ctx.fail(f'l2-oracle:{key}:{b[:50]}', f'level 2: after {ddl!r}: {b}', detail)
+                fail('l2-oracle', key, b[:50], f'level 2: after {ddl!r}: {b}', detail, finding, done)
             sch = s2
             versions.append((sch, shallow_fp(sch, chg), chg))
         bad, inv_full = aud.full(sch)
         st['full_audits'] += 1
         for b in bad:
-            ctx.fail(f'l2-oracle-full:{key}:{b[:50]}', f'level 2: at the end of the script: {b}',
-                     {'base': base, 'script': list(done)})
+            fail('l2-oracle-full', key, b[:50], f'level 2: at the end of the script: {b}',
+                 {'base': base, 'script': list(done)}, finding, done)
         if {t: v for t, v in inv.items() if v} != {t: v for t, v in inv_full.items() if v}:
             raise core.Infra('level 2: the incrementally maintained inverse diverged from the recomputed one')
         for j, (sv, fp, chg) in enumerate(versions):
